@@ -225,6 +225,28 @@ fn run(ctx: &RunCtx) -> Report {
         }));
     }
 
+    // 1 run in 12 (own random stream): a *slow consumer* - 20..28 further honest peers hold peers for one more info
+    // hash, and the client victim's application opens a get_peers stream on it which it does not read for 3..6 s
+    // while the barrage and the other calls go on
+    let mut hrng = Rng::new(crate::rng::key(ctx.seed, &[crate::rng::tag("c05-held-stream")]));
+    let held_hash: [u8; 20] = hrng.id();
+    let held_stream = hrng.chance(1, 12);
+    let mut addrs = addrs;
+    if held_stream {
+        let base = rawnet.len();
+        let m = hrng.usize(20, 28);
+        for j in 0..m {
+            let a = SocketAddrV4::new(if public { pub_ip(&mut hrng) } else { priv_ip(600 + j) }, 6881);
+            let mut p = Peer::new(hrng.id(), a);
+            p.k = 8;
+            p.delay = hrng.range(0, 100) * MS;
+            p.peers.insert(held_hash, vec![SocketAddrV4::new(priv_ip(9000 + j), 7)]);
+            p.knows = (base..base + m).collect();
+            rawnet.add(&sim, p);
+            addrs.push(a);
+        }
+        report.probe("held_stream_runs", 1);
+    }
     // victims
     let server_ip = if public { pub_ip(&mut rng) } else { priv_ip(1) };
     let client_ip = if public { pub_ip(&mut rng) } else { priv_ip(2) };
@@ -249,9 +271,56 @@ fn run(ctx: &RunCtx) -> Report {
     }
     sim.run_for(2 * SEC);
 
+    // 1 run in 4 (own random stream): a peer whose clock runs 1..44 s ahead of the server's announces itself with a
+    // validly signed announcement (accepted: within the 45 s window) and the info hash is read at once, and again
+    // during the barrage - before the server's clock has passed the announcement's timestamp
+    let mut frng2 = Rng::new(crate::rng::key(ctx.seed, &[crate::rng::tag("c05-future-announce")]));
+    let future_hash: [u8; 20] = frng2.id();
+    let future_announce = frng2.chance(1, 4);
+    if future_announce {
+        let w = SocketAddrV4::new(if public { pub_ip(&mut frng2) } else { priv_ip(480) }, 7480);
+        let (_, wlog) = logging_raw(&sim, w);
+        let srv = sim.node_addr(server);
+        let wid = frng2.id();
+        sim.raw_send(w, srv, krpc::query(&krpc::tid_bytes(48_000), "get_signed_peers", krpc::get_peers_args(&wid, &future_hash), &krpc::MsgOpts::default()));
+        sim.run_for(400 * MS);
+        let token = wlog.borrow().iter().rev().filter_map(|(_, _, b)| Krpc::parse(b)).filter_map(|k| k.token().map(|t| t.to_vec())).next();
+        if let Some(token) = token {
+            let k = krpc::signing_key(frng2.bytes(32).try_into().unwrap());
+            let ahead = frng2.range(1, 44) * 1_000_000;
+            let t = sim.host_wall_us(server) + ahead;
+            let sig = krpc::sign(&k, &krpc::signed_announce_signable(&future_hash, t));
+            sim.raw_send(w, srv, krpc::query(&krpc::tid_bytes(48_001), "announce_signed_peer", krpc::announce_signed_peer_args(&wid, &future_hash, &k.verifying_key().to_bytes(), &sig, t as i64, &token), &krpc::MsgOpts::default()));
+            sim.run_for(frng2.range(10, 300) * MS);
+            sim.raw_send(w, srv, krpc::query(&krpc::tid_bytes(48_002), "get_signed_peers", krpc::get_peers_args(&wid, &future_hash), &krpc::MsgOpts::default()));
+            sim.run_for(200 * MS);
+            let served = wlog.borrow().iter().any(|(_, _, b)| Krpc::parse(b).map(|k| k.tid_u32() == Some(48_002) && k.body.get("peers").is_some()).unwrap_or(false));
+            report.probe("future_dated_signed_announce_runs", 1);
+            if served {
+                report.probe("future_dated_signed_announce_served_before_its_timestamp", 1);
+            }
+        }
+    }
     // API calls in flight during the barrage
     let t_start = sim.now();
     let span = rng.range(2, 20) * SEC;
+    if future_announce {
+        let c = victims[1];
+        for _ in 0..frng2.usize(1, 3) {
+            let at = t_start + frng2.range(0, 20_000) * MS;
+            sim.at(at, move |sim| {
+                let _ = sim.get_signed_peers(c, future_hash);
+            });
+        }
+    }
+    if held_stream {
+        let c = victims[1];
+        let at = t_start + hrng.range(0, 1500) * MS;
+        let release = at + hrng.range(3000, 6000) * MS;
+        sim.at(at, move |sim| {
+            let _ = sim.get_peers_held(c, held_hash, release);
+        });
+    }
     let mut plan: Vec<String> = vec![format!(
         "victims server={} client={} peers={n_peers} byzantine={byz:?} corrupt_ppm={} dup_ppm={}",
         sim.node_addr(server),
